@@ -844,6 +844,22 @@ def monitor(prog, hout, tk, stats):
                     # theorems C03_x86_branch_reference_meaning / C03_x86_rip_reference_meaning: the instruction, decoded by C01's proven
                     # decoder, designates the address where the label was bound (+ the operand's own displacement)
                     ins_raw = images[rf.sec].read(rf.ibeg, rf.ilen)
+                    if ins_raw is not None and rf.cls in ("branch", "branch8"):
+                        # C03_x86_label_branch32/8 + C03_x86_branch_forms: is the emitted prefix one of the proven opcode forms?
+                        pre = bytes(ins_raw[:rf.site - rf.ibeg])
+                        if rf.cls == "branch":
+                            proven = pre in (b"\xe9", b"\xe8") or (len(pre) == 2 and pre[0] == 0x0F and 0x80 <= pre[1] <= 0x8F)
+                        else:
+                            proven = (len(pre) == 1 and (pre[0] == 0xEB or 0x70 <= pre[0] <= 0x7F or 0xE0 <= pre[0] <= 0xE3)) or pre == b"\x67\xe3"
+                        key = "x86_branch_form_proven" if proven else "x86_branch_form_other"
+                        stats[key] = stats.get(key, 0) + 1
+                    if ins_raw is not None and rf.cls == "mem":
+                        # C03_x86_label_rip + C03_x86_rip_forms (REX.W 8D/8B/89 /r, mod 00 rm 101, no trailing immediate)
+                        pre = bytes(ins_raw[:rf.site - rf.ibeg])
+                        proven = (rf.imm == 0 and len(pre) == 3 and pre[0] in (0x48, 0x4C) and pre[1] in (0x8D, 0x8B, 0x89) and pre[2] & 0xC7 == 0x05) or \
+                                 (rf.imm, pre) in ((1, b"\xc6\x05"), (2, b"\x66\xc7\x05"), (4, b"\xc7\x05"), (4, b"\x48\xc7\x05"), (1, b"\x83\x05"))  # C03_x86_rip_imm_forms
+                        key = "x86_rip_form_proven" if proven else "x86_rip_form_other"
+                        stats[key] = stats.get(key, 0) + 1
                     if ins_raw is not None:
                         abits = 64 if tk.arch == "x64" else 32
                         tgt = offs.get(lab[0], 0) + lab[1] + (rf.rel + 4 + rf.imm if rf.cls == "mem" else 0)
@@ -1091,6 +1107,38 @@ def check_programs(ck, impl, model, programs):
     return results, stats
 
 
+def shrink_program(ck, impl, model, prog, pred, budget=70, runner=None):
+    """delta debugging over the operations of one program: remove chunks while `pred` (same report) still holds on the re-run"""
+    head, body = list(prog[:1]), list(prog[1:])
+    runs = [0]
+
+    def still(cand):
+        runs[0] += 1
+        try:
+            res, _ = (runner or check_programs)(ck, impl, model, [head + cand])
+        except Exception:
+            return False
+        return bool(res) and res[0] is not None and pred(res[0])
+
+    n = 2
+    while len(body) >= 2 and runs[0] < budget:
+        chunk = max(1, len(body) // n)
+        removed = False
+        i = 0
+        while i < len(body) and runs[0] < budget:
+            cand = body[:i] + body[i + chunk:]
+            if cand and still(cand):
+                body = cand
+                removed = True
+            else:
+                i += chunk
+        if not removed:
+            if chunk == 1:
+                break
+            n = min(len(body), n * 2)
+    return head + body
+
+
 PROBE_714 = ["P x64", "L", "NS 1", "S 1", "D 8 1", "B 0", "D 8 2", "S 0", "D 1 3", "R lea 0 0 0", "D 1 4", "F", "E"]
 
 
@@ -1199,17 +1247,33 @@ def run(ck):
 
     disagreements = 0
     nontrivial = 0
+    shrunk = set()
+
+    def minimal(res, key, pred):
+        """the program of the FIRST report of a key is reduced (operation removal, same key must still be reported) so that the replay is small"""
+        if key in shrunk or len(shrunk) >= 4 or ck.match_finding(key) or any(v["key"] == key for v in ck.violations):
+            return res["prog"], None
+        shrunk.add(key)
+        small = shrink_program(ck, impl, model, res["prog"], pred)
+        return small, len(res["prog"])
+
     for res in results:
         if any(l.startswith("R ") or l.startswith("EL") or l.startswith("ED") for l in res["prog"]):
             nontrivial += 1
         for (key, what) in res["problems"]:
-            ck.violation(key, what, {"program": res["prog"], "arch": res["prog"][0].split()[1]})
+            prog, orig = minimal(res, key, lambda r, key=key: any(k == key for k, _ in r["problems"]))
+            inp = {"program": prog, "arch": res["prog"][0].split()[1]}
+            if orig is not None:
+                inp["reduced_from_operations"] = orig
+            ck.violation(key, what, inp)
         if res["diffs"]:
             disagreements += 1
             if not [p for p in res["problems"] if not ck.match_finding(p[0])]:
+                prog, orig = minimal(res, "C03/correspondence", lambda r: bool(r["diffs"]) and not [p for p in r["problems"] if not ck.match_finding(p[0])])
                 ck.violation("C03/correspondence", "implementation and proven model disagree (%s); the independent monitor found no violated reference "
                              "in this program" % "; ".join(res["diffs"][:3]),
-                             {"program": res["prog"], "broken": "correspondence of Labels model (coq/theories/Labels) with /repo", "diffs": res["diffs"][:5]},
+                             {"program": prog, "reduced_from_operations": orig, "broken": "correspondence of Labels model (coq/theories/Labels) with /repo",
+                              "diffs": res["diffs"][:5]},
                              no_input=True)
     for o in ck.proof_failures():
         ck.violation("C03/proof/" + o["name"], "theorem %s no longer checks (%s)" % (o["name"], getattr(ck, "coq_log", "")[-800:]),
